@@ -60,3 +60,11 @@ impl LuaIndex for LuaDeclIndex {
         self.decl_trees.clear();
     }
 }
+
+#[cfg(emmyluals_emmylua_analyzer_rust_verif)]
+impl LuaDeclIndex {
+    /// Verification hook: entry counts of every container of this index.
+    pub fn verif_sizes(&self) -> Vec<(&'static str, usize)> {
+        vec![("decl_trees", self.decl_trees.len())]
+    }
+}
